@@ -40,6 +40,9 @@ pub fn run(run: &Run) {
     run.random("fixpoint", run.cases(150_000, 3_000_000), 0.08, strategy, check);
 }
 
-pub fn replay(_section: &str, case: &Json) -> Option<CheckResult> {
+pub fn replay(section: &str, case: &Json) -> Option<CheckResult> {
+    if section.starts_with("fuzz-") {
+        return super::fuzz_replay("C16", section, case);
+    }
     case_from::<Case>(case).map(|c| check(&c))
 }
